@@ -131,6 +131,24 @@ def gen_cases(tier, seed):
                 if faults:
                     spec['plan']['faults'] = faults
                 cases.append(spec)
+    # a request/IO thread preempted at each statement of the write-ordering code until the others have run as far as they can
+    from .. import windows
+
+    lines = [l for l in windows.candidate_lines() if l[2].startswith(('DownloadNonSeekableOutputManager', 'DownloadOutputManager', 'DeferQueue',
+                                                                      'GetObjectTask', 'ImmediatelyWriteIOGetObjectTask', 'IO', 'CountCallbackInvoker',
+                                                                      'DownloadChunkIterator', 'BoundedExecutor.submit'))]
+    for line in lines:
+        for rep in range(2 if quick else 8):
+            dst = rng.choice(['nonseekable', 'fifo', 'nonseekable', 'seekable', 'path'])
+            cfg = dict(multipart_threshold=8, multipart_chunksize=8, io_chunksize=rng.choice([2, 4]), max_request_concurrency=rng.choice([2, 3, 4]),
+                       max_in_memory_download_chunks=rng.choice([2, 3, 4]), max_io_queue_size=rng.choice([1, 2, 1000]), num_download_attempts=2)
+            w = {'file': line[0], 'lineno': line[1], 'name': f'{line[0]}:{line[1]}:{line[2]}', 'nth': rng.randrange(0, 8), 'action': 'pause', 'wait': 0.2}
+            spec = {'seed': rng.randrange(1 << 30), 'config': cfg, 'transfers': [{'kind': 'download', 'dst': dst, 'size': rng.choice([24, 33, 41])}],
+                    'yield': {'p': rng.choice([0.0, 0.1]), 'window': w}, 'plan': {'delay_p': rng.choice([0.0, 0.3])}}
+            if rng.random() < 0.3:
+                spec['plan']['faults'] = [{'at': f't0/s3:GetObject:{8 * rng.randrange(0, 3)}#0', 'phase': 'body', 'bytes': rng.randrange(0, 8),
+                                           'kind': 'connreset', 'tag': 'FAULT-w'}]
+            cases.append(spec)
     rng.shuffle(cases)
     return cases
 
